@@ -449,5 +449,6 @@ var docProbes = [][2]string{
 	{"F09-null-label-with-name", `{"steps":[{"command":"c","label":null,"name":"n"}]}`},
 	{"F09-empty-key-with-id", `{"steps":[{"command":"c","key":"","id":"i"}]}`},
 	{"F09-empty-id-with-identifier", `{"steps":[{"command":"c","id":"","identifier":"x"}]}`},
+	{"F19-empty-skip-string", `{"steps":[{"command":"c","matrix":{"setup":{"os":["a"]},"adjustments":[{"with":{"os":"b"},"skip":""}]}}]}`},
 	{"F16-null-matrix-dimension", `{"steps":[{"command":"c","matrix":{"setup":{"os":null,"arch":["a"]}}}]}`},
 }
